@@ -345,6 +345,8 @@ PROPS = {
     ),
     "C19": dict(
         level="proof",
+        extra_lean_targets=["LdpcV.Props.C19H"],
+        extra_prop_files=["LdpcV/Props/C19H.lean"],
         trusted_base=[KERNEL, CORR,
                       "modelled: the wrapper logic only (lean/LdpcV/Model/Capi.lean: pattern parsing, constructor error mapping, depuncture -> decode -> prefix copy -> "
                       "iterations / -1, encode -> puncture -> exact-length copy), on top of the models of C08 (alist), C18 (names), C15 (puncturer), C02 (encoder) and "
